@@ -321,8 +321,13 @@ fn atoms_for(p: &Program, root: usize) -> Vec<Atom> {
 
 pub fn explore(opts: &Opts) -> Explored {
     let var = opts.seed % 3;
-    let ops: Vec<OpK> = vec![OpK::Add, OpK::Mul, OpK::Neg, OpK::UMul];
     let pool = same_shape_pool(var);
+    let mut total = Local::new(opts.only.clone());
+    let mut base_programs = 0u64;
+    // the main alphabet, and a small one around axpy with an inexact coefficient (where a shortcut for
+    // "the same handle twice" would differ from the general path by a rounding)
+    let alphabets: Vec<(Vec<OpK>, usize)> = vec![(vec![OpK::Add, OpK::Mul, OpK::Neg, OpK::UMul], 3), (vec![OpK::Axpy(0.1), OpK::Mul, OpK::Div], 2)];
+    for (ops, gen_nodes) in alphabets {
     let (pairs_upto, singles_upto) = match opts.tier {
         Tier::Quick => (2usize, 3usize),
         Tier::Thorough => (3, 3),
@@ -366,6 +371,94 @@ pub fn explore(opts: &Opts) -> Explored {
                         }
                     } else if n > singles_upto {
                         combos.clear();
+                    }
+                    // the seed of a pass may be a clone of a handle the caller keeps, or a fetched gradient:
+                    // same values, same results as with a fresh seed array
+                    {
+                        let case = || format!("{} mask={:03b} root=v{} seed-from-kept-handle", p.describe(), m, root).replace(' ', "");
+                        if l.want(&case) {
+                            let nv = p.nv();
+                            let nl = p.nl();
+                            let n_root = pool[0].vals.len();
+                            let mut cfg2 = cfg.clone();
+                            // an extra untracked leaf holding exactly the generic seed values, in slot nl
+                            cfg2.leaves.push(LeafSpec { dims: pool[0].dims.clone(), vals: crate::prog::seed_vals(n_root, 1), tracked: false });
+                            let shift = |v: usize| if v < nl { v } else { v + 1 };
+                            let mk = |kind: u8| -> (Script, Vec<Option<usize>>) {
+                                let mut acts = Vec::new();
+                                let mut seeds: Vec<Option<usize>> = Vec::new();
+                                for (kk, n2) in p.nodes.iter().enumerate() {
+                                    let args: Vec<u8> = n2.args.iter().map(|x| shift(*x) as u8).collect();
+                                    acts.push(Act::Build { op: ops.iter().position(|o| o == &n2.op).unwrap() as u8, args: args.into(), dst: shift(nl + kk) as u8 });
+                                    seeds.push(None);
+                                }
+                                let rs = shift(root) as u8;
+                                let g_slot = nv + 1;
+                                match kind {
+                                    // fresh generic seed
+                                    0 => {
+                                        acts.push(Act::Backward { slot: rs, seed: 1 });
+                                        seeds.push(None);
+                                    }
+                                    // a clone of the kept handle with the same values
+                                    1 => {
+                                        acts.push(Act::Backward { slot: rs, seed: 3 });
+                                        seeds.push(Some(nl));
+                                    }
+                                    // two passes without a seed
+                                    2 => {
+                                        acts.push(Act::Backward { slot: rs, seed: 0 });
+                                        seeds.push(None);
+                                        acts.push(Act::Backward { slot: rs, seed: 0 });
+                                        seeds.push(None);
+                                    }
+                                    // a pass without a seed, then its gradient (all ones) fetched and fed back as the seed
+                                    _ => {
+                                        acts.push(Act::Backward { slot: rs, seed: 0 });
+                                        seeds.push(None);
+                                        acts.push(Act::Fetch { slot: rs, dst: g_slot as u8 });
+                                        seeds.push(None);
+                                        acts.push(Act::Backward { slot: rs, seed: 3 });
+                                        seeds.push(Some(g_slot));
+                                    }
+                                }
+                                let views = (0..nv).map(|v| vec![shift(v)]).collect();
+                                (Script { acts, views, nslots: nv + 2 }, seeds)
+                            };
+                            let run2 = |sc: &Script, seeds: &Vec<Option<usize>>| -> Result<Vec<Option<Obs>>, String> {
+                                run_catch(|| {
+                                    let mut c = cfg2.clone();
+                                    c.nslots = sc.nslots;
+                                    let mut iw = IWorld::new(&c);
+                                    for (k, a) in sc.acts.iter().enumerate() {
+                                        iw.apply(&c, a, 100 + k, seeds[k]);
+                                    }
+                                    iw.observe()
+                                })
+                            };
+                            for (ka, kb, what) in [(0u8, 1u8, "fresh seed vs clone of a kept handle"), (2, 3, "no seed twice vs fetched gradient fed back as the seed")] {
+                                let (sa, za) = mk(ka);
+                                let (sb, zb) = mk(kb);
+                                l.transitions += 2;
+                                l.validated += 1;
+                                match (run2(&sa, &za), run2(&sb, &zb)) {
+                                    (Ok(oa), Ok(ob)) => {
+                                        for v in 0..nv {
+                                            if let (Some(x), Some(y)) = (&oa[sa.views[v][0]], &ob[sb.views[v][0]]) {
+                                                if let Err(e) = same_obs(x, y) {
+                                                    l.violation("seed-handle", case(), format!("v{}: {}: {}", v, what, e));
+                                                    break;
+                                                }
+                                            }
+                                        }
+                                    }
+                                    (Err(e), _) | (_, Err(e)) => {
+                                        l.violation("seed-handle", case(), format!("{}: panicked: {}", what, e));
+                                    }
+                                }
+                                let _ = take_user_log();
+                            }
+                        }
                     }
                     // an untracked clone used as an operand behaves exactly like an independent untracked
                     // copy of the values - also in a second pass over the same graph
@@ -484,16 +577,21 @@ pub fn explore(opts: &Opts) -> Explored {
                 }
             }
         };
-        let mut g = Gen::new(pool.clone(), ops.clone(), 3, &mut sink);
+        let mut g = Gen::new(pool.clone(), ops.clone(), gen_nodes, &mut sink);
         g.run();
         if ti == 0 {
             *progs.lock().unwrap() = g.stats.programs;
         }
     });
+    total.merge(local);
+    base_programs += *progs.lock().unwrap();
+    }
+    let (_, singles_upto, pairs_upto) = (0, 3usize, if opts.tier == Tier::Quick { 2usize } else { 3 });
+    let masks: Vec<u32> = vec![0b111, 0b011, 0b101];
     Explored {
-        local,
-        bounds: json!({"base_programs": *progs.lock().unwrap(), "max_nodes": 3, "ops": ops.iter().map(|o| o.name()).collect::<Vec<_>>(), "masks": masks,
-                       "perturbation_atoms": ["temporary clone of one operand", "variable cloned after creation, clone used for all / each single later use", "handle dropped right after its last use", "result re-bound over its first operand", "pass started from a clone of the root", "gradient read through a clone made before the pass", "gradient read through a clone made after the pass", "flag round trip that restores the handle's flags at any later point", "held alias with flipped flags", "alias re-flagged after the pass", "operand through an untracked clone vs an independent untracked copy, two passes"],
+        local: total,
+        bounds: json!({"base_programs": base_programs, "max_nodes": 3, "ops": ["add", "mul", "neg", "umul", "and a second alphabet: axpy(0.1), mul, div (n <= 2)"], "masks": masks,
+                       "perturbation_atoms": ["temporary clone of one operand", "variable cloned after creation, clone used for all / each single later use", "handle dropped right after its last use", "result re-bound over its first operand", "pass started from a clone of the root", "gradient read through a clone made before the pass", "gradient read through a clone made after the pass", "flag round trip that restores the handle's flags at any later point", "held alias with flipped flags", "alias re-flagged after the pass", "operand through an untracked clone vs an independent untracked copy, two passes", "seed given as a clone of a kept handle / as a fetched gradient vs a fresh seed"],
                        "deviation_bound": format!("every single atom for programs of <= {} nodes, every pair of atoms for programs of <= {} nodes", singles_upto, pairs_upto)}),
         rule: "every base program x masks x roots x every single (and pair of) handle perturbation(s): values and gradients of every handle surviving in the perturbed run, seen through every alias (main handle, persistent clone, clones made before/after the pass), must be bit-identical to the base run (implementation against implementation, no reference)".into(),
         exhaustive: true,
